@@ -284,24 +284,42 @@ def leaf_text(st, env):
 
 
 class TimingModel:
-    """Two clocked domains: `p` (rising edge active, owns register cnt) and `n` (falling edge active, owns
-    register k).  An action sets the input x and then toggles the clocks selected by the mask (bit0 = p.clk,
-    bit1 = n.clk) simultaneously.  With `arst` bit2 of the mask toggles the asynchronous reset of p."""
-    def __init__(self, prog_p, prog_n, cnt0=0, k0=0, arst=False):
+    """Two clocked domains: `p` (rising edge active unless p_edge="neg"; owns register cnt) and `n` (falling edge
+    active, owns register k).  An action sets the input x and then toggles the clocks selected by the mask
+    (bit0 = p.clk, bit1 = n.clk) simultaneously.  With `arst` bit2 of the mask toggles the asynchronous reset of p.
+    Monitor variants (opts): p_reg="k": the register statements of the p program toggle k (reset_less) instead of
+    incrementing cnt; top_regs=False: sg is not driven; top_cnt=True: cnt increments on active p edges with x[1]."""
+    def __init__(self, prog_p, prog_n, cnt0=0, k0=0, arst=False, p_edge="pos", p_reg="cnt", top_regs=True, top_cnt=False):
         self.prog = {"p": prog_p, "n": prog_n}
         self.init = {"cnt": cnt0, "k": k0, "sg": sg_of(cnt0, k0)}
         self.env = {"x": 0, "cnt": cnt0, "k": k0, "sg": sg_of(cnt0, k0)}
         self.clk = {"p": 0, "n": 0}
         self.rst = 0
         self.arst = arst
+        self.p_edge, self.p_reg, self.top_regs, self.top_cnt = p_edge, p_reg, top_regs, top_cnt
+
+    def _evaluate(self, domains, pre, seen=None):
+        prints, fails, regs = [], [], []
+        for d in domains:
+            for st in active_leaves(self.prog[d], pre, seen=seen):
+                if st[0] == "P":
+                    prints.append(leaf_text(st, pre))
+                elif st[0] in "AUC":
+                    if seen is not None:
+                        seen.add((st[0], st[2], value_class(ev(st[2], pre))))
+                    if st[0] in "AU" and ev(st[2], pre) == 0:      # fails iff the test value is ZERO
+                        fails.append(leaf_text(st, pre))
+                elif st[0] == "R":
+                    regs.append(d)
+        return prints, fails, regs
 
     def step(self, iv, tm):
-        """-> dict(prints=[texts], fails=[texts], edges=[domains with an active edge], unconstrained=bool)"""
+        """-> dict(prints=[texts], fails=[texts], edges=[domains with an active edge], unconstrained=bool, ...)"""
         self.env["x"] = iv
         pre = dict(self.env)
         edges = []
         if tm & 1:
-            if self.clk["p"] == 0:
+            if self.clk["p"] == (0 if self.p_edge == "pos" else 1):
                 edges.append("p")
             self.clk["p"] ^= 1
         if tm & 2:
@@ -313,22 +331,20 @@ class TimingModel:
             self.rst ^= 1
             rst_event = True
             rst_rise = self.rst == 1
-        prints, fails, regs = [], [], []
         seen = set()
-        for d in edges:
-            for st in active_leaves(self.prog[d], pre, seen=seen):
-                if st[0] == "P":
-                    prints.append(leaf_text(st, pre))
-                elif st[0] in "AUC":
-                    seen.add((st[0], st[2], value_class(ev(st[2], pre))))
-                    if st[0] in "AU" and ev(st[2], pre) == 0:      # fails iff the test value is ZERO
-                        fails.append(leaf_text(st, pre))
-                elif st[0] == "R":
-                    regs.append(d)
+        prints, fails, regs = self._evaluate(edges, pre, seen)
+        # what the statements of p WOULD do if they were (wrongly) run at a reset edge that is not a clock edge
+        hypo = None
+        if rst_event and "p" not in edges:
+            hp, hf, _r = self._evaluate(["p"], pre)
+            hypo = ("rise" if rst_rise else "fall", bool(hp), bool(hf))
         if "p" in edges:
-            self.env["sg"] = sg_of(pre["x"], pre["k"])
+            if self.top_regs:
+                self.env["sg"] = sg_of(pre["x"], pre["k"])
+            if self.top_cnt and (pre["x"] >> 1) & 1:
+                self.env["cnt"] = (self.env["cnt"] + 1) & 3
         for d in regs:
-            if d == "p":
+            if d == "p" and self.p_reg == "cnt":
                 self.env["cnt"] = (self.env["cnt"] + 1) & 3
             else:
                 self.env["k"] ^= 1
@@ -338,4 +354,4 @@ class TimingModel:
             self.env["cnt"] = self.init["cnt"]
             self.env["sg"] = self.init["sg"]
         return {"seen": seen, "prints": prints, "fails": fails, "edges": edges, "unconstrained": unconstrained,
-                "rst_rise": rst_rise, "rst_event": rst_event, "pre": pre}
+                "rst_rise": rst_rise, "rst_event": rst_event, "pre": pre, "hypo": hypo}
